@@ -209,7 +209,7 @@ def _run_fault(cfg, rec):
                     items.append(("without a fault the result is successful", z3.BoolVal(res is not None and res.success is True),
                                   "fault:spurious-failure"))
             rec.check_all(ctx, items, wit)
-            rec.sample({"fault_at_evaluation": k if faulted else None, "raise_exception": cfg["raise_exception"],
+            rec.want_sample() and rec.sample({"fault_at_evaluation": k if faulted else None, "raise_exception": cfg["raise_exception"],
                         "outcome": type(out.get("result_exc") or out.get("optimize_exc") or out.get("result")).__name__})
             rec.validate("fault", {"k": k}, {"ok": True})
 
@@ -274,7 +274,7 @@ def _run_invalid(cfg, rec):
                      ("rejected before anything is evaluated", z3.BoolVal(not evaluated and n_calls == 0),
                       f"invalid:{cfg['invalid']}:evaluated-before-rejection")]
             rec.check_all(ctx, items, wit)
-            rec.sample({"invalid": cfg["invalid"], "raised": type(out).__name__ if out is not None else None})
+            rec.want_sample() and rec.sample({"invalid": cfg["invalid"], "raised": type(out).__name__ if out is not None else None})
             rec.validate("invalid", {}, {"ok": True})
 
 
